@@ -117,7 +117,7 @@ WireValues ==
     UNION { {regs[i].blinded, regs[i].eval, regs[i].spkIn, regs[i].cpk, regs[i].mk,
              regs[i].envn, regs[i].envm} : i \in {k \in RegIds : RegOk(k)} }
     \cup UNION { {cl[c].req.blinded, cl[c].req.cnonce, cl[c].req.cepk}
-                 : c \in {k \in CliIds : cl[k].st # "none"} }
+                 : c \in {k \in CliIds : cl[k].st \notin {"none", "refused"}} }
     \cup UNION { {sv[j].resp.eval, sv[j].resp.mn, sv[j].resp.masked, sv[j].resp.snonce,
                   sv[j].resp.sepk, sv[j].resp.mac} : j \in {k \in SrvIds : SrvOk(k)} }
     \cup { cl[c].fin : c \in {k \in CliIds : CliOk(k)} }
